@@ -1,3 +1,4 @@
+import PT.Lemmas.CanonViews
 import PT.Lemmas.Reach
 /-!
 # C16 — Removed nodes are reclaimed: storage stays bounded under insert/remove churn
@@ -154,5 +155,35 @@ theorem storage_bounded (ops : List (Op w V)) :
   have h0 : (PMap.empty : PMap w V).alloc ≤ peak (PMap.empty : PMap w V) ops := by
     cases ops <;> simp [peak, PMap.empty, Tree.size] <;> omega
   omega
+
+
+/-- a map emptied by `remove` / `retain` (any history over the canonical sub-alphabet that ends with no
+entries) consists of the root node alone — it needs no more nodes than a new map … -/
+theorem emptied_is_root_only (ops : List (Op w V)) (hops : ∀ op ∈ ops, op.Canonical)
+    (he : (run ops (PMap.empty : PMap w V)).entries = []) :
+    (run ops (PMap.empty : PMap w V)).root.size = 1 := by
+  have hc := run_canonical ops hops
+  obtain ⟨p, v, l, r, hr, _⟩ := (run_inv ops).tree.root
+  unfold PMap.Canonical at hc
+  unfold PMap.entries at he
+  rw [hr] at hc he
+  rw [entries_node] at he
+  have hl : l.entries = [] := by
+    simp only [List.append_eq_nil_iff] at he; exact he.1.2
+  have hrr : r.entries = [] := by
+    simp only [List.append_eq_nil_iff] at he; exact he.2
+  have ln : l = .nil := by
+    cases hl' : l.isNil with
+    | true => cases l <;> simp_all [Tree.isNil]
+    | false => exact absurd hl (Tree.entries_ne_nil hc.2.1 hl')
+  have rn : r = .nil := by
+    cases hr' : r.isNil with
+    | true => cases r <;> simp_all [Tree.isNil]
+    | false => exact absurd hrr (Tree.entries_ne_nil hc.2.2 hr')
+  rw [hr, ln, rn]; rfl
+
+/-- … and its arena is no larger than the most nodes it ever needed at one time -/
+theorem emptied_arena_bounded (ops : List (Op w V)) :
+    (run ops (PMap.empty : PMap w V)).alloc ≤ peak (PMap.empty : PMap w V) ops := storage_bounded ops
 
 end PT.C16
